@@ -6,7 +6,7 @@ TRUSTED_BASE = [
     "extraction: ExtrOcamlBasic + ExtrOcamlZBigInt (Extract Inductive positive/Z/N => Big_int_Z.big_int; Extract Constant Pos.add/succ/pred/sub/mul/min/max/compare/compare_cont, N.add/succ/pred/sub/mul/min/max/div_eucl/div/modulo/compare/shiftl/shiftr, Z.add/succ/pred/sub/mul/opp/abs/min/max/compare/eqb/eq_dec/to_N/of_N/abs_N/div_eucl/div/modulo/shiftl/shiftr; ExtrOcamlBasic: bool/option/unit/list/prod/sumbool/sumor/comparison) + zarith 1.12; cross-checked per run against an ExtrOcamlBasic-only build and vm_compute on a sub-sample",
     "Go float32/float64 arithmetic on amd64 (no FMA) = Coq.Floats.SpecFloat SFadd/SFsub/SFmul/SFdiv/SFsqrt at (24,128)/(53,1024): exercised bit-for-bit by every case",
     "OCaml driver glue (ocaml/*/driver.ml), Go harness generators/encoders, this script",
-    "axioms: none declared by this development; Print Assumptions reports 'Closed under the global context' for every property theorem except the C18 theorems proved through Flocq 4.1.0 (validity closure of float operations, NaN-freedom, cosine range), which depend on the Coq standard library's real-number axioms ClassicalDedekindReals.sig_not_dec, ClassicalDedekindReals.sig_forall_dec, FunctionalExtensionality.functional_extensionality_dep and Classical_Prop.classic",
+    "axioms: none declared by this development; Print Assumptions reports 'Closed under the global context' for every property theorem except those proved through Flocq 4.1.0 (C18: validity closure of float operations, NaN-freedom, cosine range; C19: autocut never panics), which depend on the Coq standard library's real-number axioms ClassicalDedekindReals.sig_not_dec, ClassicalDedekindReals.sig_forall_dec, FunctionalExtensionality.functional_extensionality_dep and Classical_Prop.classic",
 ]
 
 # Axioms declared by the Coq standard library that Print Assumptions may report (only the C18 theorems
@@ -20,8 +20,8 @@ ALLOWED_STDLIB_AXIOMS = {
 
 PROPS = {
     "C19": {
-        "level_text": "Theorems over all inputs about the Gallina transcription of aggregation.go/limiter.go/fusion.go/storage_merge.go: limit = prefix of the sanitised length; autocut returns a prefix length for every float32 bit pattern and cannot panic except possibly on two scores; aggregation keeps each id once, best first, independent of input order; weighted sum and max over the union, min over the intersection, reciprocal rank over the union by rank; fused ids come from the inputs; merge keeps each id once. Tied to the code by bit-exact differential runs on every check.",
-        "level_note": "Trusted: Coq kernel, extraction, harness; float32/64 = SpecFloat. Autocut on exactly two scores is covered by the correspondence only (needs x/x in {1,NaN}).",
+        "level_text": "Theorems over all inputs about the Gallina transcription of aggregation.go/limiter.go/fusion.go/storage_merge.go: limit = prefix of the sanitised length; autocut returns a prefix length and never panics for every list of float32 bit patterns (the two-score case through the Flocq bridge: x/x is 1 or NaN); aggregation keeps each id once, best first, independent of input order; weighted sum and max over the union, min over the intersection, reciprocal rank over the union by rank; fused ids come from the inputs; merge keeps each id once. Tied to the code by bit-exact differential runs on every check.",
+        "level_note": "Trusted: Coq kernel, extraction, harness; float32/64 = SpecFloat; the autocut no-panic theorem goes through Flocq and therefore depends on the stdlib real-number axioms named in trusted_base.",
         "correspondence": "aggregation.go/limiter.go/fusion.go/storage_merge.go ~ Model.{Aggregation,Limiter,Fusion}",
         "assumptions": ["map iteration order only permutes outputs (compared as multisets)",
                         "RRF ties: any rank assignment consistent with the scores is accepted"],
